@@ -14,7 +14,7 @@ import (
 
 func init() {
 	register(&core.Spec{
-		ID: "C40",
+		ID:          "C40",
 		Explanation: "Decides structural necessary conditions of C40: (OPEN-OWNED) every file descriptor the evaluator itself opens (os.Pipe in pipelines and PipePort, os.OpenFile in redirections) is, on the success path, recorded as owned by the form (formOwnedPort.File) so that the per-form epilogue closes it, or closed/handed to a cleanup function in the same function; (CLEANUP-CALLED) every cleanup/collect function returned by PipePort, CapturePort, ValueCapturePort, StringCapturePort, FilePort and PortsFromFiles is called (directly or deferred) on every path of its caller after the success edge, or returned to that caller's caller; (REPLACE-CLOSES) in a redirection the port previously in the destination slot is closed (if owned) before the slot is overwritten; (JOINED) every goroutine started by the evaluator is joined, on every path from its go statement to a return of the spawner (shared with C19; this includes the path on which os.Pipe fails in the middle of a pipeline); (OWN-PAIR) ownership records are reset after closing, and the redirection code and the form's epilogue work on one ownership table. Descriptor counts are not decided.",
 		NotCovered:  "descriptor counts; files opened explicitly by scripts (excluded by the property)",
 		Rules:       []string{"OPEN-OWNED", "CLEANUP-CALLED", "REPLACE-CLOSES", "OWN-PAIR: an ownership record is reset after its port is closed, and cleared only after closing through the same slot", "JOINED"},
@@ -41,7 +41,7 @@ func init() {
 		},
 	})
 	register(&core.Spec{
-		ID: "C42",
+		ID:          "C42",
 		Explanation: "Decides structural necessary conditions of C42: (FLAGS) the open(2) flags compiled for each redirection mode are exactly what the mode means - < is O_RDONLY; > has O_WRONLY|O_CREATE|O_TRUNC and not O_APPEND; >> has O_WRONLY|O_CREATE|O_APPEND and not O_TRUNC; <> has O_RDWR|O_CREATE and neither O_TRUNC nor O_APPEND - and every mode of the parser's enumeration has a case; (FD-RANGE) every index into the port table with an fd evaluated from the program is guarded on both sides, and the table is never grown by an unbounded fd; (DUP-SELF) the port duplicated by n>&m is never one that the same redirection has just closed (m = n is a no-op); (OPEN-OWNED) a file opened by a redirection is recorded as owned by the form, which closes it when the form finishes; (REPLACE-CLOSES) the old destination port is closed before being replaced; (SENDERR-NONNIL) the port installed by n>&- raises an exception on value output; (PORT-TOTAL) value I/O on whatever port a redirection installs is total: every Port literal of pkg/eval has a non-nil value channel (a nil channel blocks `each ... <&-` forever), and every send on a port's value channel is dominated by the edge that excludes each closed placeholder channel (`put x >&0` turns an input port into the output; a send on its closed channel panics), the sending select is reached only after a non-blocking check of sendStop, and the reading end of a pipe is a stopped port. That bytes actually reach the file is not decided.",
 		NotCovered:  "actual data routing at run time; OS-level semantics of the flags",
 		Rules:       []string{"FLAGS", "FD-RANGE", "DUP-SELF", "OPEN-OWNED", "REPLACE-CLOSES", "OWN-PAIR", "SENDERR-NONNIL", "PORT-TOTAL"},
@@ -400,72 +400,88 @@ func closureCallsFree(f *ssa.Function) bool {
 // runReplaceCloses: in redirOp.exec every store into the destination slot is
 // preceded by the closing of the old port.
 func runReplaceCloses(p *core.Program, r *core.Report, rule string) {
-	exec := p.Method(pkgEval, "redirOp", "exec")
-	if !r.Anchor(rule, "(*eval.redirOp).exec", exec != nil) {
+	fam := redirFamily(p)
+	if !r.Anchor(rule, "(*eval.redirOp).exec", len(fam) > 0) {
 		return
 	}
-	// the destination slot: result of growAccess(&fm.ports, dst)
-	var slot *ssa.Call
-	core.Instrs(exec, func(ins ssa.Instruction) {
-		if c, ok := ins.(*ssa.Call); ok {
-			if callee := c.Call.StaticCallee(); callee != nil && core.Origin(callee).Name() == "growAccess" && strings.Contains(c.Type().String(), "Port") && !strings.Contains(c.Type().String(), "formOwnedPort") {
-				slot = c
-			}
-		}
-	})
-	if !r.Anchor(rule, "growAccess(&fm.ports, dst) in redirOp.exec", slot != nil) {
-		return
-	}
-	// closing instructions: direct fop.close calls, or calls of a local closure that does it
-	var closers []ssa.Instruction
-	closesOld := func(f *ssa.Function) bool {
-		found := false
-		core.Instrs(f, func(x ssa.Instruction) {
-			if c, ok := x.(ssa.CallInstruction); ok {
-				if callee := c.Common().StaticCallee(); callee != nil && core.IsFunc(callee, pkgEval, "formOwnedPort", "close") {
-					found = true
+	n := 0
+	nslot := 0
+	for _, fn := range fam {
+		// the destination slot in this function: the result of
+		// growAccess(&fm.ports, dst), or a **Port parameter handed down
+		var slots []ssa.Value
+		core.Instrs(fn, func(ins ssa.Instruction) {
+			if c, ok := ins.(*ssa.Call); ok {
+				if callee := c.Call.StaticCallee(); callee != nil && core.Origin(callee).Name() == "growAccess" && strings.Contains(c.Type().String(), "Port") && !strings.Contains(c.Type().String(), "formOwnedPort") {
+					slots = append(slots, c)
 				}
 			}
 		})
-		return found
-	}
-	core.Instrs(exec, func(ins ssa.Instruction) {
-		c, ok := ins.(ssa.CallInstruction)
-		if !ok {
-			return
-		}
-		if callee := c.Common().StaticCallee(); callee != nil && core.IsFunc(callee, pkgEval, "formOwnedPort", "close") {
-			closers = append(closers, ins)
-			return
-		}
-		if cf, ok := closureOf(c.Common().Value); ok && cf.Parent() == exec && closesOld(cf) {
-			closers = append(closers, ins)
-		}
-	})
-	isSlot := func(addr ssa.Value) bool {
-		addr = throughCellAddr(addr)
-		return addr == ssa.Value(slot)
-	}
-	n := 0
-	core.Instrs(exec, func(ins ssa.Instruction) {
-		st, ok := ins.(*ssa.Store)
-		if !ok || !isSlot(st.Addr) {
-			return
-		}
-		n++
-		construct := "(*eval.redirOp).exec old destination port closed before it is replaced"
-		okPre := false
-		for _, cl := range closers {
-			if core.Precedes(cl, st) {
-				okPre = true
+		for _, prm := range fn.Params {
+			if strings.HasSuffix(prm.Type().String(), "**src.elv.sh/pkg/eval.Port") {
+				slots = append(slots, prm)
 			}
 		}
-		if okPre {
-			r.OK(rule, construct+" #"+itoa(n), p.InsPos(ins), "a close of the old port dominates this store")
-		} else {
-			r.Bad(rule, construct+" #"+itoa(n), p.InsPos(ins), "the destination slot is overwritten on a path where the port it held was not closed first: a file or pipe end owned by the form leaks (and a downstream reader never sees end of input)")
+		for _, fv := range fn.FreeVars {
+			if strings.HasSuffix(fv.Type().String(), "***src.elv.sh/pkg/eval.Port") {
+				// a closure over the slot variable: its stores go through a load of the cell
+				slots = append(slots, fv)
+			}
 		}
-	})
+		if len(slots) == 0 {
+			continue
+		}
+		nslot++
+		// closing instructions: direct fop.close calls, or calls of a closure
+		// or helper that does it
+		var closers []ssa.Instruction
+		core.Instrs(fn, func(ins ssa.Instruction) {
+			c, ok := ins.(ssa.CallInstruction)
+			if !ok {
+				return
+			}
+			if callee := c.Common().StaticCallee(); callee != nil {
+				if core.IsFunc(callee, pkgEval, "formOwnedPort", "close") || (core.PkgPathOf(callee) == pkgEval && closesOwnedPort(callee)) {
+					closers = append(closers, ins)
+				}
+				return
+			}
+			if cf, ok := closureOf(c.Common().Value); ok && closesOwnedPort(cf) {
+				closers = append(closers, ins)
+			}
+		})
+		isSlot := func(addr ssa.Value) bool {
+			addr = throughCellAddr(addr)
+			for _, s := range slots {
+				if addr == s {
+					return true
+				}
+			}
+			return false
+		}
+		core.Instrs(fn, func(ins ssa.Instruction) {
+			st, ok := ins.(*ssa.Store)
+			if !ok || !isSlot(st.Addr) {
+				return
+			}
+			n++
+			construct := core.FnKey(fn) + " old destination port closed before it is replaced"
+			okPre := false
+			for _, cl := range closers {
+				if core.Precedes(cl, st) {
+					okPre = true
+				}
+			}
+			if okPre {
+				r.OK(rule, construct+" #"+itoa(n), p.InsPos(ins), "a close of the old port dominates this store")
+			} else {
+				r.Bad(rule, construct+" #"+itoa(n), p.InsPos(ins), "the destination slot is overwritten on a path where the port it held was not closed first: a file or pipe end owned by the form leaks (and a downstream reader never sees end of input)")
+			}
+		})
+	}
+	if !r.Anchor(rule, "growAccess(&fm.ports, dst) in redirOp.exec", nslot > 0) {
+		return
+	}
 	r.Anchor(rule, "stores into the destination slot", n >= 2)
 }
 
@@ -482,77 +498,80 @@ func runDupSelf(p *core.Program, r *core.Report) {
 		return
 	}
 	found := false
-	core.Instrs(exec, func(ins ssa.Instruction) {
-		st, ok := ins.(*ssa.Store)
-		if !ok {
-			return
-		}
-		ld, ok := st.Val.(*ssa.UnOp)
-		if !ok || ld.Op != token.MUL {
-			return
-		}
-		ia, ok := ld.X.(*ssa.IndexAddr)
-		if !ok || !strings.HasSuffix(exprKey(ia.X), ".ports") {
-			return
-		}
-		found = true
-		src := ia.Index
-		// a dominating test `src == dst` (false edge) or `src != dst` (true edge), dst being the redirection's destination fd
-		okGuard := false
-		for _, b := range exec.Blocks {
-			if len(b.Instrs) == 0 {
-				continue
-			}
-			iff, ok := b.Instrs[len(b.Instrs)-1].(*ssa.If)
+	for _, famFn := range redirFamily(p) {
+		exec := famFn
+		core.Instrs(exec, func(ins ssa.Instruction) {
+			st, ok := ins.(*ssa.Store)
 			if !ok {
-				continue
+				return
 			}
-			conds := []ssa.Value{iff.Cond}
-			if phi, ok := iff.Cond.(*ssa.Phi); ok {
-				// `src == dst && *dstPort != nil` evaluated as a value
-				conds = append(conds, phi.Edges...)
+			ld, ok := st.Val.(*ssa.UnOp)
+			if !ok || ld.Op != token.MUL {
+				return
 			}
-			edge := core.EdgeTo(b, st.Block())
-			for _, cnd := range conds {
-				cmp, ok := cnd.(*ssa.BinOp)
-				if !ok || (cmp.Op != token.EQL && cmp.Op != token.NEQ) {
-					continue
-				}
-				if !(cmp.X == src || cmp.Y == src) {
-					continue
-				}
-				other := cmp.X
-				if other == src {
-					other = cmp.Y
-				}
-				if !isIntType(other.Type()) {
-					continue
-				}
-				if _, isConst := other.(*ssa.Const); isConst {
-					continue
-				}
-				if (cmp.Op == token.EQL && edge == 1) || (cmp.Op == token.NEQ && edge == 0) {
-					okGuard = true
-				}
+			ia, ok := ld.X.(*ssa.IndexAddr)
+			if !ok || !strings.HasSuffix(exprKey(ia.X), ".ports") {
+				return
 			}
-		}
-		// threaded `if src == dst && p != nil { return }`
-		for _, m := range exec.Blocks {
-			if m.Dominates(st.Block()) {
-				if a, _, ok := threadedAndFalse(m); ok {
-					if cmp, ok := a.(*ssa.BinOp); ok && cmp.Op == token.EQL && (cmp.X == src || cmp.Y == src) {
+			found = true
+			src := ia.Index
+			// a dominating test `src == dst` (false edge) or `src != dst` (true edge), dst being the redirection's destination fd
+			okGuard := false
+			for _, b := range exec.Blocks {
+				if len(b.Instrs) == 0 {
+					continue
+				}
+				iff, ok := b.Instrs[len(b.Instrs)-1].(*ssa.If)
+				if !ok {
+					continue
+				}
+				conds := []ssa.Value{iff.Cond}
+				if phi, ok := iff.Cond.(*ssa.Phi); ok {
+					// `src == dst && *dstPort != nil` evaluated as a value
+					conds = append(conds, phi.Edges...)
+				}
+				edge := core.EdgeTo(b, st.Block())
+				for _, cnd := range conds {
+					cmp, ok := cnd.(*ssa.BinOp)
+					if !ok || (cmp.Op != token.EQL && cmp.Op != token.NEQ) {
+						continue
+					}
+					if !(cmp.X == src || cmp.Y == src) {
+						continue
+					}
+					other := cmp.X
+					if other == src {
+						other = cmp.Y
+					}
+					if !isIntType(other.Type()) {
+						continue
+					}
+					if _, isConst := other.(*ssa.Const); isConst {
+						continue
+					}
+					if (cmp.Op == token.EQL && edge == 1) || (cmp.Op == token.NEQ && edge == 0) {
 						okGuard = true
 					}
 				}
 			}
-		}
-		construct := "(*eval.redirOp).exec n>&m duplicates a port other than the one just closed"
-		if okGuard {
-			r.OK("DUP-SELF", construct, p.InsPos(ins), "the duplication is reached only when the source fd differs from the destination fd (or the destination slot was empty)")
-		} else {
-			r.Bad("DUP-SELF", construct, p.InsPos(ins), "n>&n closes port n and then installs that same closed port: later value output panics with 'send on closed channel' and byte output fails with 'file already closed'")
-		}
-	})
+			// threaded `if src == dst && p != nil { return }`
+			for _, m := range exec.Blocks {
+				if m.Dominates(st.Block()) {
+					if a, _, ok := threadedAndFalse(m); ok {
+						if cmp, ok := a.(*ssa.BinOp); ok && cmp.Op == token.EQL && (cmp.X == src || cmp.Y == src) {
+							okGuard = true
+						}
+					}
+				}
+			}
+			construct := "(*eval.redirOp).exec n>&m duplicates a port other than the one just closed"
+			if okGuard {
+				r.OK("DUP-SELF", construct, p.InsPos(ins), "the duplication is reached only when the source fd differs from the destination fd (or the destination slot was empty)")
+			} else {
+				r.Bad("DUP-SELF", construct, p.InsPos(ins), "n>&n closes port n and then installs that same closed port: later value output panics with 'send on closed channel' and byte output fails with 'file already closed'")
+			}
+		})
+	}
 	r.Anchor("DUP-SELF", "store of fm.ports[src] into the destination slot", found)
 }
 
